@@ -66,6 +66,9 @@ var (
 var scalarTypes = []reflect.Type{tString, tInt, tBool, tFloat64, tInt8, tInt64, tUint8, tUint64, tFloat32, tBytes, tArr4, tAny, tRaw}
 var peerTypes = []reflect.Type{tPTo, tPToPtr, tPJSON, tPJSONPtr, tPText, tPAppend, tPFunc}
 
+// SetIDBase makes peer IDs start above base (keeps IDs of different calls apart).
+func (g *GoGen) SetIDBase(base int) { g.nextID = base }
+
 func (g *GoGen) Type(depth int) reflect.Type {
 	s := g.S
 	if depth >= g.Cfg.MaxDepth {
